@@ -14,6 +14,8 @@
 #include <cmath>
 #include "mp/sol.h"
 #include "mp/suffix.h"
+#include "mp/problem.h"
+#include "mp/solver-io.h"
 #include "sol_rec.h"
 
 using namespace verif;
@@ -60,6 +62,16 @@ struct SolObj {
   const mp::SuffixSet* suffixes(mp::suf::Kind k) const { return sets[(int)k].get(); }
 };
 
+// the solver side of mp::SolutionWriterImpl (include/mp/solver-io.h): what every driver uses to write <stub>.sol and,
+// with the solution-stub option, the intermediate <solution_stub>N.sol files
+struct StubSolver {
+  std::string sstub;
+  int objno = 0;
+  const char* solution_stub() const { return sstub.c_str(); }
+  int objno_used() const { return objno; }
+  bool need_multiple_solutions() const { return false; }
+};
+
 static void put(const std::string& s) {
   size_t off = 0;
   while (off < s.size()) {
@@ -71,10 +83,11 @@ static void put(const std::string& s) {
 
 static std::string runCase(const std::string& line, const std::string& path) {
   std::istringstream ss(line);
-  std::string tag, id, msg, opts, duals, primals, sufs;
+  std::string tag, id, msg, opts, duals, primals, sufs, via = "direct";
   long fx, nvd, ncd, ncons, nvars, objno, status;
   if (!(ss >> tag >> id >> fx >> nvd >> ncd >> msg >> opts >> ncons >> nvars >> duals >> primals >> objno >> status >> sufs) || tag != "sol")
     return "bad-op";
+  ss >> via;      // direct: mp::WriteSolFile on an adapter object;  final / stub: through mp::SolutionWriterImpl
   SolObj s;
   if (!unhex(msg, s.msg)) return "bad-op";
   for (auto& o : split(opts, ',')) s.opts.push_back(atol(o.c_str()));
@@ -98,10 +111,50 @@ static std::string runCase(const std::string& line, const std::string& path) {
       for (size_t i = 0; i < vals.size(); i++) su.set_value((int)i, atoi(vals[i].c_str()));
     }
   }
-  mp::WriteSolFile(path, s);
+  std::string written = path;
+  if (via == "direct") {
+    mp::WriteSolFile(path, s);
+  } else {
+    // real mp::Problem as the ProblemBuilder (sizes and suffix sets come from it), heap arrays of exactly the problem's sizes
+    mp::Problem p;
+    p.AddVars((int)nvars, mp::var::CONTINUOUS);
+    p.AddAlgebraicCons((int)ncons);
+    for (auto& sf : split(sufs, ';')) {
+      auto f = split(sf, ':');
+      int kind = atoi(f[0].c_str());
+      std::string name, table;
+      unhex(f[1], name); unhex(f[2], table);
+      auto vals = split(f[3], ',');
+      mp::SuffixSet& set = p.suffixes((mp::suf::Kind)(kind & 3));
+      if (kind & mp::suf::FLOAT) {
+        auto su = set.Add<double>(name, kind, (int)vals.size(), table);
+        for (size_t i = 0; i < vals.size(); i++) su.set_value((int)i, realOf(vals[i]));
+      } else {
+        auto su = set.Add<int>(name, kind, (int)vals.size(), table);
+        for (size_t i = 0; i < vals.size(); i++) su.set_value((int)i, atoi(vals[i].c_str()));
+      }
+    }
+    std::unique_ptr<double[]> x(s.primals.empty() ? nullptr : new double[s.primals.size()]);
+    std::unique_ptr<double[]> y(s.duals.empty() ? nullptr : new double[s.duals.size()]);
+    for (size_t i = 0; i < s.primals.size(); i++) x[i] = s.primals[i];
+    for (size_t i = 0; i < s.duals.size(); i++) y[i] = s.duals[i];
+    if (!s.primals.empty() && (long)s.primals.size() != nvars) return "bad-op";
+    if (!s.duals.empty() && (long)s.duals.size() != ncons) return "bad-op";
+    StubSolver solver;
+    solver.objno = (int)objno;
+    std::string base = path.substr(0, path.size() - 4);     // strip ".sol"
+    solver.sstub = via == "stub" ? base + "_inter" : "";
+    mp::SolutionWriterImpl<StubSolver, mp::Problem> w(base, solver, p, mp::ArrayRef<long>(s.opts.data(), s.opts.size()));
+    if (via == "stub") {
+      w.HandleFeasibleSolution((int)status, s.msg.c_str(), x.get(), y.get(), 0.0);
+      written = base + "_inter1.sol";
+    } else {
+      w.HandleSolution((int)status, s.msg.c_str(), x.get(), y.get(), 0.0);
+    }
+  }
   std::string bytes;
   {
-    std::ifstream f(path, std::ios::binary);
+    std::ifstream f(written, std::ios::binary);
     std::stringstream b;
     b << f.rdbuf();
     bytes = b.str();
@@ -109,7 +162,8 @@ static std::string runCase(const std::string& line, const std::string& path) {
   RecHandler h;
   h.hdr.num_vars = (int)nvd;
   h.hdr.num_algebraic_cons = (int)ncd;
-  std::string r = readWith(path, h);
+  std::string r = readWith(written, h);
+  std::remove(written.c_str());
   return id + " bytes=" + hexs(bytes.data(), bytes.size()) + " || " + r;
 }
 
